@@ -146,54 +146,40 @@ func runC16(c *Ctx) {
 		"MutationType_REMOVE_KEYS":   {"RemoveKeys", "GetKeys"},
 	}
 	seenCase := map[string]bool{}
-	ast.Inspect(hm.Body, func(n ast.Node) bool {
-		cc, ok := n.(*ast.CaseClause)
-		if !ok {
-			return true
+	isType := func(e ast.Expr) bool { return hm.Prov(e) == "param#0.GetType()" }
+	for _, cl := range hm.Calls(false, func(cl *ast.CallExpr) bool {
+		se, ok := cl.Fun.(*ast.SelectorExpr)
+		return ok && hm.Prov(se.X) == "recv.memKv"
+	}) {
+		pos, _ := hm.FactsAt(cl).EqConsts(hm, isType)
+		name := ""
+		if len(pos) == 1 {
+			name = pos[0]
 		}
-		for _, e := range cc.List {
-			name := constName(hm, e)
-			w, known := wantCase[name]
+		w, known := wantCase[name]
+		ok := known
+		det := ""
+		if known {
 			seenCase[name] = true
-			ok := known
-			det := ""
-			if known {
-				var calls []*ast.CallExpr
-				for _, st := range cc.Body {
-					ast.Inspect(st, func(m ast.Node) bool {
-						if cl, ok := m.(*ast.CallExpr); ok {
-							if se, ok := cl.Fun.(*ast.SelectorExpr); ok && hm.Prov(se.X) == "recv.memKv" {
-								calls = append(calls, cl)
-							}
-						}
-						return true
-					})
-				}
-				if len(calls) != 1 {
-					ok = false
-					det = fmt.Sprintf("%d calls on the inner store", len(calls))
-				} else {
-					cl := calls[0]
-					if cl.Fun.(*ast.SelectorExpr).Sel.Name != w[0] {
+			if cl.Fun.(*ast.SelectorExpr).Sel.Name != w[0] {
+				ok = false
+				det = "calls " + cl.Fun.(*ast.SelectorExpr).Sel.Name
+			}
+			if len(cl.Args) != len(w) {
+				ok = false
+			} else {
+				for i := 1; i < len(w); i++ {
+					if hm.Prov(cl.Args[i]) != "param#0."+w[i]+"()" {
 						ok = false
-						det = "calls " + cl.Fun.(*ast.SelectorExpr).Sel.Name
-					}
-					if len(cl.Args) != len(w) {
-						ok = false
-					} else {
-						for i := 1; i < len(w); i++ {
-							if hm.Prov(cl.Args[i]) != "param#0."+w[i]+"()" {
-								ok = false
-								det += fmt.Sprintf(" arg %d is %s", i, hm.Prov(cl.Args[i]))
-							}
-						}
+						det += fmt.Sprintf(" arg %d is %s", i, hm.Prov(cl.Args[i]))
 					}
 				}
 			}
-			c.Ob("aof-dispatch", "handleMutation#"+name, cc.Pos(), ok, "each logged mutation type is applied by the same-named memory method on the mutation's own fields: "+det)
+		} else {
+			det = fmt.Sprintf("the call is not under exactly one mutation type (types known here: %v)", pos)
 		}
-		return true
-	})
+		c.Ob("aof-dispatch", "handleMutation#"+name+"->"+cl.Fun.(*ast.SelectorExpr).Sel.Name, cl.Pos(), ok, "each logged mutation type is applied by the same-named memory method on the mutation's own fields (switch or if-chain): "+det)
+	}
 	// exhaustiveness over the enum
 	pp := c.P("kv/aof/proto").Types.Scope()
 	nenum := 0
